@@ -29,9 +29,9 @@ var classes = [][]leafKind{
 	{{"bool", []string{"false", "true", "false"}}, {"int8", []string{"1", "-2", "77"}}, {"uint8", []string{"1", "254", "77"}}},                  // (1,1)
 	{{"int16", []string{"1", "-2", "30000"}}, {"uint16", []string{"1", "65534", "30000"}}},                                                      // (2,2)
 	{{"[3]byte", []string{"%T{1, 2, 3}", "%T{}", "%T{255, 254, 253}"}}},                                                                         // (3,1)
-	{{"int32", []string{"1", "-2", "1 << 30"}}, {"float32", []string{"1.5", "-2", "3e9"}}},                                                      // (4,4)
-	{{"int64", []string{"1", "-2", "1 << 62"}}, {"*int", []string{"nil", "&rt.IntA", "&rt.IntB"}}, {"float64", []string{"1.5", "-2", "3e300"}}}, // (8,8)
-	{{"string", []string{`""`, `"a"`, `"a longer string value"`}}, {"any", []string{"nil", "1", `"s"`}}},                                        // (16,8)
+	{{"int32", []string{"1", "-2", "1 << 30"}}, {"float32", []string{"1.5", "%T(rt.NegZero32)", "0"}}},                                                      // (4,4)
+	{{"int64", []string{"1", "-2", "1 << 62"}}, {"*int", []string{"nil", "&rt.IntA", "&rt.IntB"}}, {"float64", []string{"0", "%T(rt.NegZero)", "3e300"}}}, // (8,8)
+	{{"string", []string{`""`, `"a"`, `"a longer string value"`}}, {"any", []string{"nil", "[]int{1}", `"s"`}}},                                        // (16,8)
 	{{"[]byte", []string{"nil", "%T{1}", "%T{1, 2, 3}"}}},                                                                                       // (24,8)
 }
 
@@ -269,7 +269,8 @@ func (g *gen) emit(sh *shape) {
 
 	// ---- C02: requests that must be refused
 	g.pf("\t\tif c.Is(\"C02\") {\n")
-	foreign := []string{"rt.ForeignA", "rt.ForeignB", "rt.ForeignC"}
+	// types no generated struct has a field of; every field type is assignable to the last one
+	foreign := []string{"rt.ForeignA", "rt.ForeignB", "rt.ForeignC", "any"}
 	for i, e := range es {
 		if firstKey[e.f.key()] != i || !g.want("C02") {
 			continue
